@@ -16,5 +16,5 @@ UNVERIFIED = [
 ASSUMPTIONS = ['wf(Decimal) of the feed price and of the reference price: decimal_multiplier <= 20 (established by Decimal::try_from_price, proved under C26)']
 MANIFEST = dict(engine='verus',
     technique='Verus contract on the private free function try_adjust_price_with_max_deviation_factor extracted by text from /repo each run, over the proved contracts of Decimal::{to_unit_price, with_unit_price}, apply_factor and Price::checked_mid',
-    text='Deductive proof, unbounded over all feed prices (value, multiplier <= 20), explicit or mid reference prices and all u128 deviation factors: whenever the function returns an adjusted price that is not inverted (min <= max), both its sides lie in [ref - dev, ref + dev] with dev = floor(ref * factor / 10^20); no arithmetic overflow on any path (overflow of ref + dev, ref - dev < 0, or a clamped value beyond u32 gives None).',
+    text='Deductive proof, unbounded over all feed prices (value, multiplier <= 20), explicit or mid reference prices and all u128 deviation factors: whenever the function returns an adjusted price that is not inverted (min <= max), both its sides lie in [ref - dev, ref + dev] with dev = floor(ref * factor / 10^20); no arithmetic overflow on any path (overflow of ref + dev, ref - dev < 0, or a clamped value beyond u32 gives None). Side by side, also for an inverted result: the max side is never above the band and is inside it unless it is the upper bound rounded down to its own step; the min side is never below the band and is inside it unless it is the lower bound rounded up - a side lying on the wrong side of the reference is always reset.',
     note='Trusted: Verus+Z3, assumed abs_diff/pow/div_ceil contracts, the get_or_insert desugaring, carriers. Caller-side rejection (PriceValidator) is C24 and listed as unverified.')
